@@ -12,6 +12,12 @@ fn main() {
 }
 
 pub fn gen(rng: &mut Rng, idx: usize, n: usize, thorough: bool) -> String {
+    // builder level: every third case is a BDD program, run under every cache configuration
+    if idx % 3 == 2 {
+        use rsdd_verif_harness::bddprog::*;
+        let o = GenOpts { max_vars: if thorough { 8 } else { 6 }, max_ops: if thorough { 60 } else { 28 }, new_vars: true, small_tables: true };
+        return format!("P {}", gen_prog(rng, idx, n, &o));
+    }
     // sizes grow with the index so that the first failing case tends to be small
     let frac = (idx * 100) / n.max(1);
     let cap = if frac < 40 { rng.range(0, 1) } else if frac < 80 { rng.range(0, 3) } else { rng.range(0, 5) };
@@ -37,7 +43,41 @@ pub fn gen(rng: &mut Rng, idx: usize, n: usize, thorough: bool) -> String {
     s
 }
 
+/// the same program under AllIteTable and LruIteTable at hook capacities 2^0..2^4 must give
+/// pointer-identical shapes (compared through the canonical unfolding) and the right functions
+fn run_builder_level(case: &str, st: &mut Stats) -> Outcome {
+    use rsdd_verif_harness::bddprog::*;
+    let base = parse(case);
+    let spec = spec_tables(&base);
+    let nv = base.total_vars();
+    let mut lines: Vec<(String, String)> = vec![];
+    let mut fails = vec![];
+    for lru in [None, Some(0usize), Some(1), Some(2), Some(4), Some(16)] {
+        let mut prog = base.clone();
+        prog.lru = lru;
+        let b = AnyBuilder::new(&prog);
+        let mut dummy = Stats::default();
+        let pool = exec(&b, &prog, &mut dummy);
+        for (k, p) in pool.iter().enumerate() {
+            if table_of(*p, nv) != spec[k] {
+                fails.push(format!("cache {:?}: pool entry {k} denotes the wrong function", lru));
+            }
+        }
+        lines.push((format!("{:?}", lru), pool_line(&pool)));
+    }
+    for (name, l) in &lines[1..] {
+        if *l != lines[0].1 {
+            fails.push(format!("apply cache {name} changes a result: {} vs cache-everything {}", l, lines[0].1));
+        }
+    }
+    st.bump("builder_level_programs");
+    Outcome { result: lines[0].1.clone(), fails, nontrivial: base.ops.len() > 6 }
+}
+
 pub fn run(case: &str, st: &mut Stats) -> Outcome {
+    if let Some(rest) = case.strip_prefix("P ") {
+        return run_builder_level(rest, st);
+    }
     let t = toks(case);
     let cap: usize = t[0].parse().unwrap();
     let mut lru: Lru<u64, u64> = Lru::new(cap);
